@@ -121,7 +121,17 @@ func runSerial(world []*Obj, scripts [][]Op) (out serialOut) {
 
 func eqAns(a, b Ans) bool { return eqU64(a, b) }
 
+// coldFirst: the first run of this process is a cold run (flag -cold): the concurrent burst is
+// the first thing after object construction that touches the library, so state that the library
+// initialises on first use is first used by racing readers, as in a freshly started program.
+var coldFirst bool
+var coldDone bool
+
 func runC14(rc *runCtx) *RunResult {
+	if coldFirst && !coldDone {
+		coldDone = true
+		return runC14Cold(rc)
+	}
 	res := &RunResult{}
 	g := gen.New()
 	t := g.T
@@ -412,4 +422,128 @@ func trunc(a Ans) Ans {
 		return a[:12]
 	}
 	return a
+}
+
+// runC14Cold: one burst on never-built objects in a process that has done nothing but construct
+// them. The serial references are computed AFTER the burst.
+func runC14Cold(rc *runCtx) *RunResult {
+	res := &RunResult{}
+	g := gen.New()
+	g.NoCells = true
+	t := g.T
+	w := &c14World{}
+	w.descs = drawWorld(g, 3, 200)
+	w.state = make([]int, len(w.descs))
+	w.split = make([]int, len(w.descs))
+	drawKindMask(t)
+	ntasks := 2 + int(t.Uint(5))
+	scripts := make([][]Op, ntasks)
+	for k := range scripts {
+		n := 1 + int(t.Uint(6))
+		scripts[k] = make([]Op, n)
+		for i := range scripts[k] {
+			scripts[k][i] = drawQuery(g, w.descs, true)
+		}
+	}
+	var sub []*Obj
+	if p := func() (p string) {
+		defer func() {
+			if x := recover(); x != nil {
+				p = fmt.Sprint(x)
+			}
+		}()
+		sub = w.mkClone()
+		return ""
+	}(); p != "" {
+		rc.inc("skipped_world_panic", 1)
+		return res
+	}
+	ans := make([][]Ans, ntasks)
+	fns := make([]func(), ntasks)
+	for k := range scripts {
+		k := k
+		ans[k] = make([]Ans, len(scripts[k]))
+		fns[k] = func() {
+			for i := range scripts[k] {
+				ans[k][i] = execQuery(sub, &scripts[k][i], nil)
+			}
+		}
+	}
+	core.S.BeginRun(ntasks, core.StratCfg{Force: -1, EstSF: 3000, EstTotal: 3000000})
+	verdict, panics := core.RunTasks(fns, func(x any) string { return fmt.Sprint(x) })
+	s := &core.S
+	rc.inc("cold_bursts", 1)
+	rc.inc("bursts", 1)
+	rc.inc("tasks", int64(ntasks))
+	rc.inc("steps", s.Steps)
+	rc.inc("switches", int64(s.Switches))
+	rc.inc("preempt_S", int64(s.SwByClass[0]))
+	rc.inc("preempt_F", int64(s.SwByClass[1]))
+	rc.inc("preempt_O", int64(s.SwByClass[2]))
+	rc.inc(fmt.Sprintf("strategy_%d", s.Strat), 1)
+	res.Sig = s.IHash ^ 0xC01D
+	res.Nontrivial = s.SwByClass[0]+s.SwByClass[1]+s.SwByClass[2] > 0
+	for i, d := range w.descs {
+		rc.log("cold run: obj%d %s", i, describeObj(d))
+	}
+	for k := range scripts {
+		for i := range scripts[k] {
+			rc.log("cold burst task%d op%d %s", k, i, scripts[k][i].String())
+		}
+	}
+	schedTrace(rc)
+	if verdict != core.VOK {
+		res.Fatal = true
+		if verdict == core.VOverflow {
+			rc.inc("sim_overflow", 1)
+			return res
+		}
+		res.Viol = &Violation{Kind: core.VerdictName(verdict), Site: siteName(s.VSite),
+			Detail: fmt.Sprintf("cold process, first burst: task%d %s at %s after %d steps", s.VTask, core.VerdictName(verdict), siteName(s.VSite), s.Steps)}
+		return res
+	}
+	if len(panics) > 0 {
+		p := panics[0]
+		res.Viol = &Violation{Kind: "panic", Site: panicSite(p.Stack),
+			Detail: fmt.Sprintf("cold process, first burst: task%d panicked: %s | %s", p.Task, p.Value, shortStack(p.Stack, 8))}
+		res.Fatal = true
+		return res
+	}
+	// serial references, after the fact
+	var refA, refB []*Obj
+	if p := func() (p string) {
+		defer func() {
+			if x := recover(); x != nil {
+				p = fmt.Sprint(x)
+			}
+		}()
+		refA = w.mkClone()
+		refB = w.mkClone()
+		for _, o := range refB {
+			if ix := o.index(); ix != nil {
+				ix.Build()
+			}
+		}
+		return ""
+	}(); p != "" {
+		rc.inc("skipped_world_panic", 1)
+		return res
+	}
+	sa := runSerial(refA, scripts)
+	sb := runSerial(refB, scripts)
+	if sa.panics != "" || sb.panics != "" {
+		rc.inc("skipped_serial_panic", 1)
+		return res
+	}
+	for k := range scripts {
+		for i := range scripts[k] {
+			if !eqAns(ans[k][i], sa.ans[k][i]) && !eqAns(ans[k][i], sb.ans[k][i]) {
+				op := &scripts[k][i]
+				res.Viol = &Violation{Kind: "wrong-answer", Site: qNames[op.Kind] + "/" + objKindNames[w.descs[op.Obj].Kind],
+					Detail: fmt.Sprintf("cold process, first burst task%d op%d %s: concurrent answer %v; serial (lazy index) %v; serial (prebuilt index) %v", k, i, op.String(), trunc(ans[k][i]), trunc(sa.ans[k][i]), trunc(sb.ans[k][i]))}
+				return res
+			}
+		}
+	}
+	return res
 }
